@@ -85,6 +85,15 @@ def main():
     meta["confirmed"] = bool(ok)
     meta["caught_by_check"] = meta["checks"].get(prop, {}).get("exit") == 1
     out = os.path.join(VERIF, "seeded", a.seed_id)
+    prev_path = os.path.join(out, "meta.json")
+    if os.path.exists(prev_path):  # keep what earlier confirmations established (suite run, first-run note)
+        prev = json.load(open(prev_path))
+        for k in ("suite_summary", "suite_passes", "first_run"):
+            if k in prev and k not in meta:
+                meta[k] = prev[k]
+        if a.no_suite and "suite_passes" in meta:
+            meta["confirmed"] = bool(ok and meta["suite_passes"])
+            meta["ran"] += [r for r in prev.get("ran", []) if r.startswith("pytest")]
     if ok:
         os.makedirs(out, exist_ok=True)
         shutil.copy(patch, os.path.join(out, "patch.diff"))
